@@ -137,12 +137,32 @@ def observe(dec, pkt: bytes, win: bool):
     return ("msg", r.PGN, r.id, r.source, r.destination, iso_tuple(r.source_iso_name), _digest(r))
 
 
+_DUMP_FILES = []
+
+
 def make_decoder(cfg):
     Dec = _impl()[0]
     kw = dict(exclude_pgns=list(cfg["ex"]), include_pgns=list(cfg["inc"]),
               exclude_manufacturer_code=list(cfg["exm"]), include_manufacturer_code=list(cfg["incm"]),
               build_network_map=cfg["nm"])
+    if cfg.get("dump") is not None:
+        # recording to a file is switched on as well (dump filter = cfg["dump"]): what a decoder RETURNS is not its business
+        import tempfile
+        fd, path = tempfile.mkstemp(prefix="c10_dump_", suffix=".jsonl", dir="/tmp")
+        os.close(fd)
+        os.unlink(path)
+        _DUMP_FILES.append(path)
+        kw.update(dump_to_file=path, dump_pgns=list(cfg["dump"]))
     return Dec(**kw)
+
+
+def cleanup_dumps():
+    while _DUMP_FILES:
+        p = _DUMP_FILES.pop()
+        try:
+            os.unlink(p)
+        except OSError:
+            pass
 
 
 def pkt_src(pkt: bytes) -> int:
@@ -334,15 +354,21 @@ def case_json(cfg, hist):
 def cfg_json(cfg):
     def it(x):
         return x if isinstance(x, (int, str)) else {"other": repr(x)}
-    return {"ex": [it(x) for x in cfg["ex"]], "inc": [it(x) for x in cfg["inc"]], "exm": cfg["exm"],
-            "incm": cfg["incm"], "nm": cfg["nm"]}
+    out = {"ex": [it(x) for x in cfg["ex"]], "inc": [it(x) for x in cfg["inc"]], "exm": cfg["exm"],
+           "incm": cfg["incm"], "nm": cfg["nm"]}
+    if cfg.get("dump") is not None:
+        out["dump"] = [it(x) for x in cfg["dump"]]
+    return out
 
 
 def cfg_unjson(j):
     def it(x):
         return 1.5 if isinstance(x, dict) else x
-    return {"ex": [it(x) for x in j["ex"]], "inc": [it(x) for x in j["inc"]], "exm": list(j["exm"]),
-            "incm": list(j["incm"]), "nm": bool(j["nm"])}
+    out = {"ex": [it(x) for x in j["ex"]], "inc": [it(x) for x in j["inc"]], "exm": list(j["exm"]),
+           "incm": list(j["incm"]), "nm": bool(j["nm"])}
+    if j.get("dump") is not None:
+        out["dump"] = [it(x) for x in j["dump"]]
+    return out
 
 
 def hist_unjson(j):
@@ -855,6 +881,24 @@ def search(ctx):
         if w and w["key"] not in seen:
             seen.add(w["key"])
             out.append(w)
+    # the same with recording to a file switched on, the dump filter overlapping the decoder's own lists
+    try:
+        for cfg, hist in cands[:ctx.n(120, 1200)]:
+            nums = [x for x in cfg["ex"] + cfg["inc"] if isinstance(x, int)]
+            strs = [x for x in cfg["ex"] + cfg["inc"] if isinstance(x, str)]
+            for dump in ([], nums[:2], strs[:1] + nums[:1]):
+                if dump == [] and rng.random() < 0.6:
+                    continue
+                c2 = dict(cfg, dump=dump)
+                w = c10_witness(c2, hist)
+                if w:
+                    w["key"] += ":with-dump"
+                    w["what"] += f" [recording on, dump_pgns={dump}]"
+                    if w["key"] not in seen:
+                        seen.add(w["key"])
+                        out.append(w)
+    finally:
+        cleanup_dumps()
     # the histories again as time-stamped text lines with gaps of up to a minute between frames
     for cfg, hist in cands[:ctx.n(150, 1500)]:
         if not hist:
@@ -936,7 +980,10 @@ def replay(ctx, data):
     if w.get("kind") != "c10":
         print("observed: not a C10 history witness")
         return False
-    r = c10_oracle(cfg_unjson(w["config"]), hist_unjson(w["history"]))
+    try:
+        r = c10_oracle(cfg_unjson(w["config"]), hist_unjson(w["history"]))
+    finally:
+        cleanup_dumps()
     print("expected: filtered output = unfiltered output restricted to the permitted PGNs, same source maps")
     print("observed:", r[2] if r else "property holds on this input")
     return r is not None
